@@ -224,6 +224,16 @@ def run(tier):
             callnames += [MU.callee_names(c)[1] for fk, c in calls]
         rep.ob("C07.writer|%s|field" % field, fields == {field}, "%s writes the text generated from the %s image" % (w.split("::")[-1], field) if fields == {field} else
                "%s writes %s" % (w.split("::")[-1], sorted(fields)))
+        # nothing but the generated records goes to the file: every write takes its bytes from the generated text
+        allw = W.calls_in(P, fam, lambda rp, full: W.is_write(rp) or W.is_write_all(rp))
+        stray = []
+        for k_, bb_, t_, rp_ in allw:
+            consts_, calls_, places_ = W.slice_family(P, fam, k_, [t_["args"][1]])
+            from_text = any(P.tys(fk, P.body[fk]["locals"][pl["local"]]["ty"]).endswith("writer::GenerateResult") for fk, pl in places_)
+            if not from_text:
+                stray.append(sorted(repr(c.get("str")) for c in consts_ if "str" in c or "bytes" in c)[:2] or [rp_.split("::")[-1]])
+        rep.ob("C07.writer|%s|records-only" % field, not stray, "every write to the %s file takes its bytes from the generated records (%d writes)" % (field, len(allw)) if not stray else
+               "%s also writes bytes that are no record (%s): the file does not consist solely of Intel HEX records" % (w.split("::")[-1], stray[0]))
         crlf = "\n" in strs and "\r\n" in strs and any(n.endswith("::replace") for n in callnames)
         rep.ob("C07.writer|%s|crlf" % field, crlf, "line ends are converted LF -> CRLF" if crlf else "no LF -> CRLF conversion found in %s" % w)
         # the file holds nothing but this run's records: it is created or truncated when opened
